@@ -29,7 +29,7 @@ import (
 
 func init() {
 	mon.RegisterCfg("C20", mon.Config{
-		Rule: "generated fonts (TrueType with full / short / no name list, simple CFF, CID-keyed CFF) x name patterns (complete, none, holes, duplicates, names equal to future placeholders or future derived names, invalid names) x cmaps (none/some/all glyphs mapped, several code points per glyph) x GSUB 1.1/1.2/3.1/4.1 lookups over existing glyphs (glyph 0 included) with one or several subtables per lookup, several rules reaching one target, one-glyph ligatures and lookups of types 2/5/6/8 in between; one font in 97 has 1001..1300 mostly unnamed glyphs; postconditions of MakeGlyphNames are checked and the call is repeated 12 times (identical?), then EnsureGlyphNames/GlyphName and cff MakeSimple; PostScriptName over family names drawn from all of Unicode incl. every ASCII delimiter. distinct = distinct (name list pattern, cmap, GSUB) inputs (hash)",
+		Rule: "generated fonts (TrueType with full / short / no name list, simple CFF, CID-keyed CFF) x name patterns (complete, none, holes, duplicates, names equal to future placeholders or future derived names, invalid names) x cmaps (none/some/all glyphs mapped, several code points per glyph) x GSUB 1.1/1.2/3.1/4.1 lookups over existing glyphs (glyph 0 included) with one or several subtables per lookup, several rules reaching one target, one-glyph ligatures and lookups of types 2/5/6/8 in between; one font in 97 has 1001..1300 mostly unnamed glyphs; postconditions of MakeGlyphNames are checked and the call is repeated 12 times (identical?), then EnsureGlyphNames/GlyphName and cff MakeSimple; PostScriptName over family names drawn from all of Unicode incl. every ASCII delimiter. distinct = distinct (name list pattern, cmap, GSUB) inputs (hash) Stratum names-from-files: fonts as sfnt.Read returns them (post versions 1, 2, 3), with a canary on the standard Macintosh names later fonts are given.",
 		Assumptions: []string{
 			"'Adobe glyph-list name of a code point' is what seehuhn.de/go/postscript/type1/names.FromUnicode returns (external module, not under test)",
 			"lookups of other types than 1, 3, 4 (2.1, 5.1, 6.3, 8.1 are mixed in) are no source of names the property demands; a name given to one of their output glyphs is recorded, not judged",
